@@ -124,6 +124,15 @@ func (p *Program) CallersOf(target *ssa.Function) []CallSite {
 				continue
 			}
 		}
+		if cf := e.Caller.Func; cf != nil && cf.Synthetic != "" && cf.Parent() == nil && wrappedMethod(cf) == target {
+			// called through the compiler-made wrapper of a method value / method expression: the callers are
+			// the places that call the wrapper
+			for _, cs := range p.CallersOf(cf) {
+				cs.Callee = target
+				out = append(out, cs)
+			}
+			continue
+		}
 		out = append(out, CallSite{Caller: e.Caller.Func, Instr: e.Site, Callee: target})
 	}
 	sort.Slice(out, func(i, j int) bool {
